@@ -181,7 +181,9 @@ def spec_op(op):
 
 def _close(x, y):
     try:
-        return num_close(from_xr(x), from_xr(y), 1e-9, 1e-12)
+        # absolute 1e-9: (a - a_r) cancels for tables with n ~ 1e6 and tiny off-diagonals (ets of 254228,1,1,0 is -2e-6,
+        # right to 6 digits in double precision)
+        return num_close(from_xr(x), from_xr(y), 1e-9, 1e-9)
     except ValueError:
         return x == y
 
